@@ -369,6 +369,28 @@ def r94(ctx) -> None:
                 R.undecided(f, r.stmt, key, 'guard is not a single test')
                 continue
             g = tests[0].stmt.test
+            # the roles the guard looks at come from the AUTHENTICATED
+            # identity and nowhere else
+            foreign = []
+            for cmpn in [x for x in ast.walk(g) if isinstance(x, ast.Compare)
+                         and isinstance(x.ops[0], (ast.In, ast.NotIn))
+                         and isinstance(x.left, ast.Constant)]:
+                rv = cmpn.comparators[0]
+                if txt(rv) in roles:
+                    continue
+                defs = [txt(v) for v in resolve_local(f, rv)]
+                if any(d not in roles for d in defs):
+                    foreign += [d for d in defs if d not in roles]
+            if foreign:
+                R.fail(f, r.stmt, key,
+                       f'the privilege test reads roles from {foreign}, '
+                       f'not (only) from {authn}.roles: roles of the '
+                       f'REQUESTED identity count towards the permission to '
+                       f'become it — an ordinary user with its own valid '
+                       f'password authorizes as an existing admin '
+                       f'(AUTHENTICATE PLAIN "root\\0user\\0pass") and gets '
+                       f'an admin session')
+                continue
             table = {}
             consts: set = set()
             for A, P in itertools.product((False, True), repeat=2):
